@@ -5,11 +5,11 @@ import (
 	"fmt"
 	"io"
 	"net/http"
-	"net/http/httptest"
 	"strings"
 	"sync"
 	"testing"
 	"time"
+	"verifharness/bed"
 
 	"k8s.io/client-go/rest"
 
@@ -22,7 +22,9 @@ import (
 
 // TestReproFlushRace is the minimal reproduction of C19/flush-not-atomic with nothing faked: the real typed client against
 // an in-memory REST stub, the real constructor, real goroutines. (Not part of the check; run it with
-//   go test -tags verif -vet=off -run TestReproFlushRace ./c19
+//
+//	go test -tags verif -vet=off -run TestReproFlushRace ./c19
+//
 // It FAILS on a tree that has the defect and passes with out/proposed-fixes/C19-flush-not-atomic.diff.)
 //
 // Periodic store, two cached conditions. Flush() lists both, then writes them one by one. While its first write is on the
@@ -40,7 +42,7 @@ func TestReproFlushRace(t *testing.T) {
 		w.WriteHeader(code)
 		fmt.Fprintf(w, `{"kind":"Status","apiVersion":"v1","status":"Failure","reason":%q,"code":%d}`, reason, code)
 	}
-	srv := httptest.NewServer(http.HandlerFunc(func(w http.ResponseWriter, r *http.Request) {
+	srv := bed.NewServer(http.HandlerFunc(func(w http.ResponseWriter, r *http.Request) {
 		name := ""
 		if i := strings.Index(r.URL.Path, "/ratelimitconditions/"); i >= 0 {
 			name = r.URL.Path[i+len("/ratelimitconditions/"):]
